@@ -9,6 +9,8 @@ CONSTANTS
   ShardCaps = {2, 3}
   BatchMaxes = {2, 3}
   Modes = {"shared"}
+  Admission = "atomic"
+  NChan = 4
   Depth = 25
 INVARIANT Emit
 CHECK_DEADLOCK FALSE
